@@ -49,7 +49,7 @@ Proof. finish_locus 1. ring. Qed.
 
 (* the value tested by convert_special_quadric is G itself *)
 Lemma sq_test_value a b c d e f g x y z :
-  eval_quadric RS (sq_to_gq RS a b c d e f g x y z) (x, y, z) = Ok g.
+  eval_quadric RS (sq_expand RS a b c d e f g x y z) (x, y, z) = Ok g.
 Proof. cbn. unfold ssq. cbn. f_equal. ring. Qed.
 
 Lemma sq_locus_sense A B C D E F G x0 y0 z0 :
